@@ -2941,8 +2941,14 @@ class HTTPChannel(basic.LineReceiver, policies.TimeoutMixin):
             self._requestProducer.resumeProducing()
 
         # We only want to resume the network producer if we're not currently
-        # waiting for a response to show up.
-        if not self._handlingRequest:
+        # waiting for a response to show up - unless reading is not (or no
+        # longer) held back by the eager-read limit: it may have been paused
+        # for an earlier request and requestDone() could not resume it while
+        # the transport was full.  Leaving it paused would keep us from
+        # noticing that the peer went away until the response is finished.
+        if not self._handlingRequest or (
+            sum(map(len, self._dataBuffer)) <= self._optimisticEagerReadSize
+        ):
             self._networkProducer.resumeProducing()
 
     def _send100Continue(self):
